@@ -49,6 +49,8 @@ def make_session(rnd, pad):
         L = len(read)
         name = f"q{q}"
         opt = [f"tp:A:{rnd.choice('PPS')}", f"cg:Z:{L}=", "NM:i:1"] + ([f"zz:Z:{'p' * pad}"] if pad else [])
+        if not pad and q % 5 == 4:      # a free-text last field ending in white space that is not ASCII (no-break / ideographic space)
+            opt.append("co:Z:sample 7" + ["\u00a0", "\u3000", " \u00a0"][q % 3])
         recs.append("\t".join([name, str(L), "0", str(L), "+", "".join(o + n for o, n in steps), str(len(spelled)), str(ps), str(pe), str(L), str(L), str(rnd.choice([0, 30, 60]))] + opt))
         reads.append((name, read))
     return nodes, links, recs, reads
